@@ -384,22 +384,31 @@ func (m *BVM) checkDispatcher() {
 				return true
 			}
 			found := false
-			Mentions(ifi.Cond, func(v ssa.Value) bool {
-				c, ok := v.(*ssa.Call)
-				if !ok {
-					return false
+			seenFn := map[*ssa.Function]bool{}
+			var inBody func(g *ssa.Function, d int)
+			inBody = func(g *ssa.Function, d int) {
+				if g == nil || seenFn[g] || !m.P.InModule(g) || d > 3 {
+					return
 				}
-				g := c.Call.StaticCallee()
-				if g == nil || !m.P.InModule(g) {
-					return false
-				}
+				seenFn[g] = true
 				for _, gb := range g.Blocks {
 					for _, in := range gb.Instrs {
 						if val, ok := in.(ssa.Value); ok && Mentions(val, pred) {
 							found = true
 						}
+						// predicate helpers calling further predicate helpers (isEntryPoint -> isStubMethod)
+						if cc, ok := in.(ssa.CallInstruction); ok {
+							inBody(cc.Common().StaticCallee(), d+1)
+						}
 					}
 				}
+			}
+			Mentions(ifi.Cond, func(v ssa.Value) bool {
+				c, ok := v.(*ssa.Call)
+				if !ok {
+					return false
+				}
+				inBody(c.Call.StaticCallee(), 1)
 				return false
 			})
 			return found
